@@ -678,12 +678,12 @@ pub fn run(ctx: &Ctx) -> i32 {
         ctx,
         stats: &stats,
         violations,
-        rule: "three streams. (1) every harvested program that compiles: run as compiled, tree-shaken, each after a serde_json write/read (JSON values equal before/after), and each merged into a simulated 2-worker environment behind 0-3 other harvested programs (alternately plain and tree-shaken); all results equal structurally (names, labels, bytes; function/process/ref identities canonicalised); timing- and I/O-dependent sources are discarded. (2) generated programs evaluating to a nilary closure over 2-8 earlier bindings (integers incl. bignums, constant and heap binaries, concatenations, strings, named/labelled tuples, closures with and without a parameter that capture earlier bindings incl. other closures): the CLI's extract-entry path (evaluate, inject captures) then plain / tree-shaken / +JSON / +merged, against the same closure applied in source. (3) generated modules (same binding language, optionally importing an inner module) exporting every binding in a record, imported as a whole value, by member access at each use, destructured, by star, or inside a closure — against the module body spliced in place as a block; the importing program also runs in every packaging variant. evaluations = variant runs; non-trivial = tree-shaking removed functions and types, or closures capturing binaries cross the packaging step, or a module imports a module".into(),
+        rule: "three streams. (1) every harvested program that compiles: run as compiled, tree-shaken, each after a serde_json write/read (JSON values equal before/after), and each merged into a simulated 2-worker environment behind 0-3 other harvested programs (alternately plain and tree-shaken); all results equal structurally (names, labels, bytes; function/process/ref identities canonicalised); timing- and I/O-dependent sources are discarded. (2) generated programs evaluating to a nilary closure over 1-8 earlier bindings (integers incl. bignums, constant and heap binaries, concatenations, strings, named/labelled tuples, closures with and without a parameter that capture earlier bindings incl. other closures): the CLI's extract-entry path (evaluate, inject captures) then plain / tree-shaken / +JSON / +merged, against the same closure applied in source; one program in four also goes through the real command line as subprocesses (`quiv run -e`, `quiv compile -o f.qx` then `quiv run f.qx`, `quiv compile | quiv run`; binary built from /repo's tree by check.sh), whose printed results must equal each other and the text of the in-process value (function indices masked). (3) generated modules (same binding language, optionally importing an inner module) exporting every binding in a record, imported as a whole value, by member access at each use, destructured, by star, or inside a closure — against the module body spliced in place as a block; the importing program also runs in every packaging variant. evaluations = variant runs; non-trivial = tree-shaking removed functions and types, or closures capturing binaries cross the packaging step, or a module imports a module".into(),
         assumptions: vec![
             "the synchronous driver is the reference for sequential programs; programs that need an environment are compared between the two merged variants only".into(),
             "the real `quiv compile` / `quiv run` subprocess path is replicated in-process (compile_and_extract_entry, to_bytecode_optimized, serde_json), not executed".into(),
         ],
-        required_classes: vec!["corpus:sequential-program", "corpus:program-with-processes", "tree-shake-removed-functions-and-types", "merged-behind-2+", "cli-extract-entry-path", "entry-captures-binaries-and-closures", "entry-captures-closures-capturing-closures", "import:whole-module-value", "import:member-access-at-each-use", "import:destructured", "import:star", "import:inside-a-closure-and-as-value", "import:module-importing-a-module", "import:closures-capturing-binaries"],
+        required_classes: vec!["corpus:sequential-program", "corpus:program-with-processes", "tree-shake-removed-functions-and-types", "merged-behind-2+", "cli-extract-entry-path", "cli:real-quiv-subprocess-routes", "cli:output-compared-with-in-process-value", "entry-captures-binaries-and-closures", "entry-captures-closures-capturing-closures", "import:whole-module-value", "import:member-access-at-each-use", "import:destructured", "import:star", "import:inside-a-closure-and-as-value", "import:module-importing-a-module", "import:closures-capturing-binaries"],
         started,
         technique: "corpus programs + proptest-generated closure/module programs; oracle = differential across packaging variants (as compiled / tree-shaken / JSON round trip / CLI entry extraction / merged behind other programs) and import vs in-place module body",
     })
